@@ -949,7 +949,12 @@ func (s *Server) processPublish(cl *Client, pk packets.Packet) error {
 	} else if errors.Is(err, packets.CodeSuccessIgnore) {
 		pk.Ignore = true
 	} else if cl.Properties.ProtocolVersion == 5 && pk.FixedHeader.Qos > 0 && errors.As(err, new(packets.Code)) {
-		err = cl.WritePacket(s.buildAck(pk.PacketID, packets.Puback, 0, pk.Properties, err.(packets.Code)))
+		ackType := packets.Puback
+		if pk.FixedHeader.Qos == 2 {
+			ackType = packets.Pubrec // a QoS 2 publish is refused with a PUBREC, not a PUBACK [MQTT-4.3.3]
+		}
+
+		err = cl.WritePacket(s.buildAck(pk.PacketID, ackType, 0, pk.Properties, err.(packets.Code)))
 		if err != nil {
 			return err
 		}
